@@ -125,7 +125,11 @@ Misc == { [k |-> "describe"], [k |-> "unknown"] }
 AllMs == {"prod", "prodh", "exch", "exchh"}
 OneLog == { <<>>, << <<"INFO", "m1">> >> }
 
-QuickCalls == UnaryCalls(1, {"", "EXCEPTION", "ERROR", "INFO"})
+\* methods that DECLARE a header but whose init handler returns none: no header stream, the init
+\* handler's logs travel on the main stream
+NoHdrCalls == { [c EXCEPT !.hdr = FALSE] :
+                c \in StreamOK({"prodh", "exchh"}, 1, {1, 3}, {"eq"}, { << <<"INFO", "m1">> >> }) }
+QuickCalls == NoHdrCalls \cup UnaryCalls(1, {"", "EXCEPTION", "ERROR", "INFO"})
               \cup StreamOK({"prod", "exchh"}, 1, {0, 2}, {"eq", "bad"}, OneLog)
               \cup StreamOK({"prodh", "exch"}, 0, {1, 3}, {"castable"}, {<<>>})
               \cup StreamBad(AllMs, {0, 2}) \cup Garbage \cup Misc
